@@ -35,6 +35,25 @@ def run(tier, argv):
         for k in tot:
             tot[k] += s[k]
         bad += list(vlib.read_ndjson(mm))
+    # line structure: hand-written compact spellings against the house-style rendering of the same abstract schema (GenSpell)
+    rawg = work.path("gen-spell.txt")
+    r = vlib.tlc(work, "GenSpell", "GenSpell.cfg", to_file=rawg, timeout=600)
+    rep.add_tlc(r, "GenSpell (compact spellings)")
+    gcases = work.path("cases-spell.ndjson")
+    ng = 0
+    with open(gcases, "w") as f:
+        for l in vlib.tagged_file(rawg, "@@CASE"):
+            f.write(l + "\n")
+            ng += 1
+    if ng == 0:
+        raise vlib.Infra("GenSpell produced no case")
+    mmg = work.path("mism-spell.ndjson")
+    p = vlib.run_harness(hbin, ["c13alt", "-cases", gcases, "-out", mmg], timeout=600)
+    if p.returncode != 0:
+        raise vlib.Infra("c13alt failed: " + p.stderr.decode()[-2000:])
+    rep.notes["compact_spellings"] = semcommon.summary_of(p.stderr)
+    bad += list(vlib.read_ndjson(mmg))
+    tot["spellings"] += ng
     rep.notes["replay"] = tot
     rep.sample({"layout_count": nl})
     rep.cov["evaluations"] = tot["spellings"] + tot["validations"]
